@@ -150,6 +150,7 @@ struct Options {
 	bool common = false;		// restrict the driven alphabet to the feature-independent subset (C15)
 	bool immReduced = false;	// ... but only the reduced menus, and only on change/restart/resume ops
 	std::string mode;			// property-specific sub-mode
+	bool marks = false;			// external succeed()/fail() calls are part of the alphabet (always in mode "plans")
 };
 
 // a snapshot of what the public API reports (+ raw registry through the probe)
